@@ -18,8 +18,9 @@ func init() {
 		Explanation: "Decides structural necessary conditions of 'the parser is total' for the parse stage: " +
 			"P1 panic barrier: every caller of the generated parser mmParse registers, on all paths before the call, a deferred closure that calls recover(), never panics again, and on the non-nil edge turns the function's result into a parse failure; mmParse has no other callers, so every exported parse entry point goes through the barrier - whatever panics in the lexer, a grammar action or a literal conversion becomes a located error, " +
 			"P2 lexer progress: nextToken returns a token other than INVALID only with a non-empty match, and every iteration of the Lex loop advances the cursor by the match length, " +
-			"P3 include recursion is bounded: a file is parsed recursively only when it is not yet in the processed set, and it is inserted before the recursive call; the includer graph stays acyclic: an edge is added to an already known file only where the cycle check (a recursive walker over SourceFile.IncludedFrom) returned nil, or every such walker carries a visited set. " +
-			"NOT decided: panics in the compile phase (enumerated as information), time/memory proportionality, errors without a position.",
+			"P3 include recursion is bounded: a file is parsed recursively only when it is not yet in the processed set, and it is inserted before the recursive call; the includer graph stays acyclic: an edge is added to an already known file only where the cycle check (a recursive walker over SourceFile.IncludedFrom) returned nil, or every such walker carries a visited set, " +
+			"P5 the nil *Pipeline with which the top-level call is compiled (followed from the literal nil through direct argument passing) is never dereferenced without a dominating nil test. " +
+			"NOT decided: other panics in the compile phase (enumerated as information), index panics in error rendering, time/memory proportionality, errors without a position.",
 		Assumptions: append([]string{"Go's regexp is linear-time (RE2); the goyacc skeleton is trusted"}, commonAssumptions...),
 	}
 }
@@ -171,6 +172,7 @@ func runC08(c *an.Ctx) {
 		}
 	}
 	c08IncludeGraph(c)
+	ruleP5(c)
 	// information: explicit panics in package syntax outside the parse stage
 	nPanic := 0
 	for _, fn := range p.FuncsOf(pkgSyntax) {
